@@ -855,9 +855,22 @@ async fn memnet_scenario(mon: &Monitor, l: &mut Local<'_>, rng: &mut Rng, round:
     let oct = |rng: &mut Rng| rng.range(1, 250) as u8;
     let b_addr = SocketAddr::from(([10, oct(rng), oct(rng), oct(rng)], rng.range(1024, 65000) as u16));
     let c_addr = SocketAddr::from(([11, oct(rng), oct(rng), oct(rng)], rng.range(1024, 65000) as u16));
-    let a_ip = [12, oct(rng), oct(rng), oct(rng)];
+    // the dialling peers' address class varies by round: IPv4, IPv4-mapped IPv6, global / ULA IPv6
+    let v4 = [12, oct(rng), oct(rng), oct(rng)];
+    let (a_ip, fam): (std::net::IpAddr, &'static str) = match round % 4 {
+        0 | 2 => (std::net::IpAddr::from(v4), "ipv4"),
+        1 => (std::net::IpAddr::V6(std::net::Ipv4Addr::from(v4).to_ipv6_mapped()), "ipv6-mapped"),
+        _ => {
+            if rng.chance(0.5) {
+                (std::net::IpAddr::V6(std::net::Ipv6Addr::new(0x2001, 0xdb8, rng.range(0, 0xffff) as u16, 0, 0, 0, 0, rng.range(1, 0xffff) as u16)), "ipv6-global")
+            } else {
+                (std::net::IpAddr::V6(std::net::Ipv6Addr::new(0xfd00, rng.range(0, 0xffff) as u16, 0, 0, 0, 0, 0, rng.range(1, 0xffff) as u16)), "ipv6-ula")
+            }
+        }
+    };
     let p0 = rng.range(1024, 60000) as u16;
-    let a_addrs: Vec<SocketAddr> = (0..3).map(|i| SocketAddr::from((a_ip, p0 + i))).collect();
+    let a_addrs: Vec<SocketAddr> = (0..3).map(|i| SocketAddr::new(a_ip, p0 + i)).collect();
+    l.count(&format!("memnet.rounds.{fam}"));
 
     let mut spawn = Vec::new();
     for addr in [b_addr, c_addr].iter().chain(a_addrs.iter()) {
@@ -907,10 +920,10 @@ async fn memnet_scenario(mon: &Monitor, l: &mut Local<'_>, rng: &mut Rng, round:
         l.case(&a.addr, "net-get_peer_id");
         match b.transport.get_peer_id_by_address(&a.addr.to_string()).await {
             Some(p) if p == a.tid_hex => l.count("memnet.get_peer_id_by_address.found"),
-            Some(p) => l.vio("cross/get_peer_id_by_address/wrong-peer/ipv4", || json!({"via": "memnet", "address": a.addr.to_string(), "registered_as": stored, "expected": a.tid_hex, "got": p})),
+            Some(p) => l.vio(&format!("cross/get_peer_id_by_address/wrong-peer/{fam}"), || json!({"via": "memnet", "address": a.addr.to_string(), "registered_as": stored, "expected": a.tid_hex, "got": p})),
             None => {
                 l.count("memnet.get_peer_id_by_address.not-found");
-                l.vio("cross/get_peer_id_by_address/inbound-not-found/ipv4", || json!({"via": "memnet: A dialled B, lookup on B", "remote_socket": a.addr.to_string(), "registry_text (register_new_peer)": stored, "get_peer_id_by_address(remote_socket)": "None"}));
+                l.vio(&format!("cross/get_peer_id_by_address/inbound-not-found/{fam}"), || json!({"via": "memnet: A dialled B, lookup on B", "remote_socket": a.addr.to_string(), "registry_text (register_new_peer)": stored, "get_peer_id_by_address(remote_socket)": "None"}));
             }
         }
         // what the DHT manager understood
@@ -923,9 +936,9 @@ async fn memnet_scenario(mon: &Monitor, l: &mut Local<'_>, rng: &mut Rng, round:
                 if read.iter().any(|x| *x == Some(a.addr)) {
                     l.count("memnet.dht-peer.address-same");
                 } else if addrs.is_empty() {
-                    l.vio("cross/dht-peer-address-lost/ipv4", || json!({"peer_socket": a.addr.to_string(), "registry_text": stored, "dht_peer_addresses": addrs}));
+                    l.vio(&format!("cross/dht-peer-address-lost/{fam}"), || json!({"peer_socket": a.addr.to_string(), "registry_text": stored, "dht_peer_addresses": addrs}));
                 } else {
-                    l.vio("cross/dht-peer-address-different/ipv4", || json!({"peer_socket": a.addr.to_string(), "registry_text": stored, "dht_peer_addresses": addrs}));
+                    l.vio(&format!("cross/dht-peer-address-different/{fam}"), || json!({"peer_socket": a.addr.to_string(), "registry_text": stored, "dht_peer_addresses": addrs}));
                 }
             }
         }
@@ -937,14 +950,16 @@ async fn memnet_scenario(mon: &Monitor, l: &mut Local<'_>, rng: &mut Rng, round:
             if lenient(text) == Some(a.addr) {
                 l.count("memnet.routing-entry.address-same");
             } else {
-                l.vio("cross/routing-entry-address-different/ipv4", || json!({"peer_socket": a.addr.to_string(), "routing_table_text": text}));
+                l.vio(&format!("cross/routing-entry-address-different/{fam}"), || json!({"peer_socket": a.addr.to_string(), "routing_table_text": text}));
             }
         }
     }
     // were the admission gates applied to the three same-IP peers? control: the same three
     // socket texts handed to a bare engine
     let mut ctl_ok = 0usize;
-    if let Ok(mut eng) = DhtCoreEngine::verif_new_log_only(NodeId::from_bytes(rng.arr32())) {
+    if fam != "ipv4" {
+        // (the same-IP admission comparison below is built for the IPv4 per-address cap)
+    } else if let Ok(mut eng) = DhtCoreEngine::verif_new_log_only(NodeId::from_bytes(rng.arr32())) {
         for a in a_addrs.iter() {
             if eng.add_node(ninfo(rng.arr32(), a.to_string())).await.is_ok() {
                 ctl_ok += 1;
@@ -955,7 +970,7 @@ async fn memnet_scenario(mon: &Monitor, l: &mut Local<'_>, rng: &mut Rng, round:
         l.count(&format!("memnet.same-ip-peers-in-table.{in_table}-control-{ctl_ok}"));
         if in_table > ctl_ok {
             let entries: Vec<String> = routing.iter().filter(|(id, _)| a_nodes.iter().any(|a| a.pos == *id)).map(|(_, t)| t.clone()).collect();
-            l.vio("cross/peer-connected-gates-skipped/ipv4", || json!({"three inbound peers from one IP": a_addrs.iter().map(|x| x.to_string()).collect::<Vec<_>>(),
+            l.vio(&format!("cross/peer-connected-gates-skipped/{fam}"), || json!({"three inbound peers from one IP": a_addrs.iter().map(|x| x.to_string()).collect::<Vec<_>>(),
                 "admitted_by_node_B": in_table, "admitted_by_bare_engine_given_plain_text": ctl_ok, "routing_table_texts": entries}));
         }
     }
@@ -1001,7 +1016,7 @@ async fn memnet_scenario(mon: &Monitor, l: &mut Local<'_>, rng: &mut Rng, round:
                                 target_named = true;
                             }
                         } else {
-                            l.vio("cross/reply-names-different-address/ipv4", || json!({"peer_socket": w.addr.to_string(), "reply_text": n.address}));
+                            l.vio(&format!("cross/reply-names-different-address/{fam}"), || json!({"peer_socket": w.addr.to_string(), "reply_text": n.address}));
                         }
                     }
                 }
@@ -1017,9 +1032,9 @@ async fn memnet_scenario(mon: &Monitor, l: &mut Local<'_>, rng: &mut Rng, round:
     l.case(&target.addr, "net-reply-dial");
     let named_addrs: HashSet<SocketAddr> = named.values().flatten().copied().collect();
     if let Some((bad, tag)) = dials.iter().find(|(d, _)| !named_addrs.contains(d) && !known.contains_key(d)) {
-        l.vio("cross/reply-dial/wrong-address/ipv4", || json!({"reply_texts": named.keys().collect::<Vec<_>>(), "dialled": bad.to_string(), "hub_says": tag}));
+        l.vio(&format!("cross/reply-dial/wrong-address/{fam}"), || json!({"reply_texts": named.keys().collect::<Vec<_>>(), "dialled": bad.to_string(), "hub_says": tag}));
     } else if !dials.iter().any(|(d, _)| *d == target.addr) {
-        l.vio("cross/reply-dial/not-dialled/ipv4", || json!({"lookup_target_peer": target.addr.to_string(), "reply_texts": named.keys().collect::<Vec<_>>(),
+        l.vio(&format!("cross/reply-dial/not-dialled/{fam}"), || json!({"lookup_target_peer": target.addr.to_string(), "reply_texts": named.keys().collect::<Vec<_>>(),
             "addresses_dialled_by_C": dials.iter().map(|(d, t)| format!("{d} {t}")).collect::<Vec<_>>()}));
     } else {
         l.count("memnet.reply-dial.target-dialled");
@@ -1114,7 +1129,7 @@ fn main() {
 
     // phase 2: a few rounds of the in-memory network (virtual time)
     {
-        let rounds = mon.by_tier(3u64, 12);
+        let rounds = mon.by_tier(8u64, 24);
         let mut rng = Rng::new(vkit::splitmix(mon.seed, 0x3e3));
         let rt = checks::rt(true);
         rt.block_on(async {
